@@ -251,6 +251,8 @@ func (n *NNode) Depth(d int, maxDepthCap int) (int, error) {
 func (n *NNode) printDepthPaths(path []int, pathIndex *int, w io.Writer) error {
 	// Mark the current node and store it in path[]
 	n.visited = true
+	// the mark must not survive this call, whichever way it ends (a failing writer included)
+	defer func() { n.visited = false }()
 	path[*pathIndex] = n.Id
 	*pathIndex++
 
@@ -282,9 +284,8 @@ func (n *NNode) printDepthPaths(path []int, pathIndex *int, w io.Writer) error {
 			}
 		}
 	}
-	// Remove current vertex from path[] and mark it as unvisited
+	// Remove current vertex from path[] (it is marked as unvisited on return)
 	*pathIndex--
-	n.visited = false
 	return nil
 }
 
